@@ -140,8 +140,10 @@ func (g *c03Gen) ty(d, byVal, byRef int) *c03Ty {
 		}
 	}
 	switch g.n(0, 15, "kind") {
-	case 0, 1:
+	case 0:
 		return g.ty(0, 0, 0)
+	case 1:
+		return &c03Ty{K: "if"}
 	case 2, 3:
 		return &c03Ty{K: "arr", N: g.n(2, 4, "alen"), E: g.ty(d-1, byVal, byRef)}
 	case 4, 5, 6:
@@ -150,6 +152,20 @@ func (g *c03Gen) ty(d, byVal, byRef int) *c03Ty {
 		ky := c03Str
 		if g.n(0, 2, "ikey") == 0 {
 			ky = c03Int
+		}
+		// map values of declared / interface types are favoured: their types are
+		// stored as references and must be re-resolved when the map is loaded
+		switch g.n(0, 5, "melem") {
+		case 0:
+			return &c03Ty{K: "map", Ky: ky, E: &c03Ty{K: "if"}}
+		case 1:
+			if byRef > 0 {
+				return &c03Ty{K: "map", Ky: ky, E: &c03Ty{K: "ptr", E: &c03Ty{K: "st", S: g.n(0, byRef-1, "msidx")}}}
+			}
+		case 2:
+			if byRef > 0 {
+				return &c03Ty{K: "map", Ky: ky, E: &c03Ty{K: "st", S: g.n(0, byRef-1, "msidx")}}
+			}
 		}
 		return &c03Ty{K: "map", Ky: ky, E: g.ty(d-1, byRef, byRef)}
 	case 9, 10, 11:
@@ -318,12 +334,12 @@ func (g *c03Gen) children(p c03Place, args bool) []c03Place {
 		if p.T.Ky.K == "int" {
 			k = "1"
 		}
-		add(p.X+"["+k+"]", p.T.E, true, false)
+		add(p.X+"["+k+"]", p.T.E, true, false, p.X+" != nil")
 		if args {
 			if p.T.Ky.K == "int" {
-				add(p.X+"[a]", p.T.E, true, false)
+				add(p.X+"[a]", p.T.E, true, false, p.X+" != nil")
 			} else {
-				add(p.X+"[s]", p.T.E, true, false)
+				add(p.X+"[s]", p.T.E, true, false, p.X+" != nil")
 			}
 		}
 	}
@@ -837,6 +853,54 @@ func c03DrawProg(rt *rapid.T, pkg string, minFn, maxFn int) c03Prog {
 	g.vars = append(g.vars, c03Var{Name: "V" + strconv.Itoa(nv), T: g.reg(&c03Ty{K: "sl", E: c03Int})})
 	g.vars = append(g.vars, c03Var{Name: "V" + strconv.Itoa(nv+1), T: g.reg(&c03Ty{K: "arr", N: 4, E: c03Int})})
 
+	// alias variables: package variables initialised to share state with a
+	// place of the base variables (pointer to it, sub-slice of it, copy of a
+	// reference value, closure capturing a pointer to it).
+	nbase := len(g.vars)
+	var aliasInit []string
+	{
+		asc := g.scope(nil, false)
+		for i, na := 0, g.n(2, 4, "nalias"); i < na; i++ {
+			q := asc.places[g.n(0, len(asc.places)-1, "aplace")]
+			if q.Steps == 0 && q.T.K != "arr" && q.T.K != "st" && !q.T.isRef() && g.n(0, 2, "skipprim") != 0 {
+				q = asc.places[g.n(0, len(asc.places)-1, "aplace2")]
+			}
+			name := "V" + strconv.Itoa(len(g.vars))
+			var t *c03Ty
+			var init string
+			mode := g.n(0, 3, "amode")
+			switch {
+			case q.T.K == "sl" && mode <= 1:
+				a := g.n(0, 1, "alo")
+				b := a + g.n(1, 2, "ahi")
+				t = q.T
+				init = c03Guard(c03Conds(q.Conds, []string{fmt.Sprintf("%d <= cap(%s)", b, q.X)}), fmt.Sprintf("%s = %s[%d:%d]", name, q.X, a, b))
+			case q.T.K == "arr" && q.Adr && mode <= 1:
+				a := g.n(0, q.T.N-1, "alo")
+				b := g.n(a+1, q.T.N, "ahi")
+				t = &c03Ty{K: "sl", E: q.T.E}
+				init = c03Guard(q.Conds, fmt.Sprintf("%s = %s[%d:%d]", name, q.X, a, b))
+			case q.T.K == "int" && q.Adr && mode == 0:
+				t = &c03Ty{K: "fn"}
+				init = c03Guard(q.Conds, fmt.Sprintf("%s = mkPtr(&%s)", name, q.X))
+			case q.T.K == "st" && q.Adr && mode == 0:
+				t = &c03Ty{K: "if"}
+				init = c03Guard(q.Conds, fmt.Sprintf("%s = IF(&%s)", name, q.X))
+			case q.T.isRef() && mode <= 2:
+				t = q.T
+				init = c03Guard(q.Conds, fmt.Sprintf("%s = %s", name, q.X))
+			case q.Adr:
+				t = &c03Ty{K: "ptr", E: q.T}
+				init = c03Guard(q.Conds, fmt.Sprintf("%s = &%s", name, q.X))
+			default:
+				continue
+			}
+			g.alias++
+			g.vars = append(g.vars, c03Var{Name: name, T: g.reg(t)})
+			aliasInit = append(aliasInit, init)
+		}
+	}
+
 	var sb strings.Builder
 	sb.WriteString("package " + pkg + "\n")
 	sb.WriteString(c03Prelude)
@@ -854,25 +918,35 @@ func c03DrawProg(rt *rapid.T, pkg string, minFn, maxFn int) c03Prog {
 	}
 	// init: literals, then alias-making statements
 	sb.WriteString("\nfunc init() {\n")
-	for _, v := range g.vars {
+	for _, v := range g.vars[:nbase] {
 		fmt.Fprintf(&sb, "\t%s = %s\n", v.Name, g.lit(v.T, 3))
 	}
+	for _, a := range aliasInit {
+		sb.WriteString(a)
+	}
 	isc := g.scope(nil, false)
-	for i, n := 0, g.n(2, 5, "ninit"); i < n; i++ {
+	for i, n := 0, g.n(0, 3, "ninit"); i < n; i++ {
 		sb.WriteString(g.stmt(isc))
 	}
+	// execution M performs the whole call sequence here, in the deployment
+	// transaction, before anything has been persisted (see c03Full)
+	sb.WriteString("\tif atInit {\n\t\tResult = runAll()\n\t}\n")
 	sb.WriteString("}\n\n")
 
 	prog := c03Prog{Pkg: pkg}
 	nf := g.n(minFn, maxFn, "nfuncs")
 	for fi := 0; fi < nf; fi++ {
 		name := "F" + strconv.Itoa(fi)
-		fmt.Fprintf(&sb, "func %s(cur realm, a int, s string) string {\n\tacc := 0\n", name)
+		fmt.Fprintf(&sb, "func %s(cur realm, a int, s string) string { return f%d(a, s) }\n\n", name, fi)
+		fmt.Fprintf(&sb, "func f%d(a int, s string) string {\n\tacc := 0\n", fi)
 		// locals
 		var locals []c03Place
 		sc0 := g.scope(nil, true)
 		for li, nl := 0, g.n(0, 2, "nlocals"); li < nl; li++ {
 			src := sc0.places[g.n(0, len(sc0.places)-1, "lsrc")]
+			if !src.T.isRef() {
+				src = sc0.places[g.n(0, len(sc0.places)-1, "lsrc2")]
+			}
 			lt := src.T
 			e, c, root := g.rv(sc0, lt, "")
 			ln := "l" + strconv.Itoa(li)
